@@ -130,7 +130,9 @@ func NewFunc(token token.Token, name *Ident, parameters []*Ident, defaults map[s
 
 func (f *Func) ExpressionNode() {}
 
-func (f *Func) IsExpression() bool { return f.name == nil }
+// A function literal always evaluates to a value: the compiler leaves the
+// function on the stack even when it is named.
+func (f *Func) IsExpression() bool { return true }
 
 func (f *Func) Token() token.Token { return f.token }
 
